@@ -58,7 +58,7 @@ SAMPLER_KW = {
 }
 
 
-def build_scenario(seed, sampler, flow, xp, route="ctor", api="aspire"):
+def build_scenario(seed, sampler, flow, xp, route="ctor", api="aspire", rng_kind=None):
     rng = rng_from(seed)
     t = make_target(pick(rng, ["gauss_box", "hug", "periodic"]), int(pick(rng, [1, 2])), rng)
     fl, fit = copy.deepcopy(FLOWS[flow])
@@ -79,6 +79,8 @@ def build_scenario(seed, sampler, flow, xp, route="ctor", api="aspire"):
         scn["xp"] = "torch"
     if sampler == "smc" and rng.integers(2) == 0:
         scn["sample_kwargs"]["n_final_samples"] = scn["n_samples"] + 5
+    if rng_kind:
+        scn["rng_kind"] = rng_kind
     return scn
 
 
@@ -110,6 +112,10 @@ def gen_cases(seed, tier):
         for route, api in (("sample", "sampler"), ("top", "aspire")):
             add("route", sampler="minipcn", flow="simflow", xp="numpy", route=route, api=api)
         add("route", sampler="emcee", flow="simflow", xp="numpy", route="top", api="aspire")
+        # a generator-like object that is not a numpy Generator (what orng.ArrayRNG is for torch / jax users)
+        for route, api in (("ctor", "sampler"), ("sample", "sampler"), ("top", "aspire")):
+            add("route", sampler="smc", flow="simflow", xp="numpy", route=route, api=api, rng_kind="duck")
+        add("route", sampler="minipcn", flow="simflow", xp="numpy", route="top", api="aspire", rng_kind="duck")
     for _ in range(4 if quick else 40):
         add("seed", sampler="smc", flow="simflow", xp="numpy", route="sample", api="sampler")
         add("seed", sampler="minipcn", flow="simflow", xp="numpy", route="top", api="aspire")
@@ -126,7 +132,7 @@ def scenario_of(case):
 
         return c05_blackjax.scenario(case)
     return build_scenario(case["scenario_seed"], case["sampler"], case["flow"], case["xp"], case.get("route", "ctor"),
-                          case.get("api", "aspire"))
+                          case.get("api", "aspire"), case.get("rng_kind"))
 
 
 def run_digest(scn):
@@ -159,7 +165,7 @@ def run_case(case, workdir):
         return c05_blackjax.judge(case, workdir, scenario_of(case), want=('c20',))
     scn = scenario_of(case)
     kind = case["kind"]
-    where = {**O.scn_where(scn), "kind": kind, "route": scn["rng_route"], "api": scn["api"]}
+    where = {**O.scn_where(scn), "kind": kind, "route": scn["rng_route"], "api": scn["api"], "generator": scn.get("rng_kind") or "numpy Generator"}
     V, probes, keys = [], {}, []
     evaluations, events = 0, 0
     r1 = run_process(scn, workdir, fresh_file=True)
@@ -170,7 +176,7 @@ def run_case(case, workdir):
                                                "sampler": scn["sampler"], "flow": scn["flow"]["backend"], "xp": scn["xp"]},
                 "evaluations": 1, "events": events, "nontrivial_keys": [], "digest": digest_of(r1.status)}
     d1 = digest_of(r1.summary())
-    key = [kind, scn["sampler"], scn["flow"]["backend"], scn["xp"], scn["rng_route"] if kind != "twin" else None]
+    key = [kind, scn["sampler"], scn["flow"]["backend"], scn["xp"], scn["rng_route"] if kind != "twin" else None, scn.get("rng_kind")]
     if kind == "twin":
         r2 = run_process(scn, workdir, fresh_file=True)
         evaluations += 1
